@@ -155,9 +155,10 @@ PartNear(mp, cell) ==
 (* Lines and points have no interior: read literally the centre rule could *)
 (* never mark a cell, while rasterio burns a Bresenham-style pixel chain   *)
 (* (which can even contain a pixel the exact line does not meet).  The     *)
-(* statement does not say which cells a line marks, so the check only      *)
-(* demands that a cell away from the mapped shape (not meeting its         *)
-(* bounding box) is not marked.                                            *)
+(* statement does not say which cells a line marks between its vertices,   *)
+(* so the check demands that the bins containing the vertices are marked   *)
+(* (HasVertexIn) and that a cell away from the mapped shape (not meeting   *)
+(* its bounding box) is not.                                               *)
 (***************************************************************************)
 ArealStatus(mparts, cell) ==
     LET st == [k \in DOMAIN mparts |-> PolyStatus(mparts[k].rings, Centre(cell))]
@@ -167,8 +168,15 @@ ArealStatus(mparts, cell) ==
 Touched(mparts, cell) == \E k \in DOMAIN mparts : PartTouches(mparts[k], cell)
 MParts(tp, rr, g) == [k \in DOMAIN Parts(g) |-> MapPart(tp, rr, Parts(g)[k])]
 \* status with respect to an already mapped shape
+\* the cell that contains a mapped vertex (vertices are cell corners 2*idx: the cell with that lower-left corner, as
+\* rasterio's pixel of a point is the floor of its coordinates)
+HasVertexIn(mp, cell) == \E r \in DOMAIN mp.rings : \E q \in DOMAIN mp.rings[r] : mp.rings[r][q] = <<2 * cell[1], 2 * cell[2]>>
+\* Points and lines: the bin that contains a point, and in the plain mode the bin that contains any vertex of a line, holds
+\* the value (a time stamp in the first time bin marks that column's first cell; a point in the first row marks its cell).
+\* Under all_touched the vertex cells of LINES stay undecided (the open finding: rasterio's second line algorithm drops them).
 StatusM(mparts, areal, at, cell) ==
-    IF ~areal THEN (IF \E k \in DOMAIN mparts : PartNear(mparts[k], cell) THEN "either" ELSE "out")
+    IF ~areal THEN (IF \E k \in DOMAIN mparts : HasVertexIn(mparts[k], cell) /\ (mparts[k].dim = 0 \/ ~at) THEN "in"
+                    ELSE IF \E k \in DOMAIN mparts : PartNear(mparts[k], cell) THEN "either" ELSE "out")
     ELSE LET plain == ArealStatus(mparts, cell) IN
          IF ~at \/ plain = "in" THEN plain
          ELSE IF \E k \in DOMAIN mparts : CertainTouch(mparts[k], cell) THEN "in"
